@@ -7,6 +7,7 @@ Random AXML documents for C26 / C31 (generator side; uses only harness/axmlwrite
   expected(tree)            the canonical tree the property demands for a well-formed tree (independent oracle):
                             nested tuples ("E", tag, ns, ((ns, name, value|None), ...) sorted, (children...)) / ("T", text);
                             value None = no declared meaning (TYPE_NULL, dynamic references): any string accepted
+  vary_layout(rng, tree)    per-element attributeSize (20/24/28/36), idIndex/classIndex/styleIndex, optionally attributeStart > 20
   sys_attrs(repo)           {id: name} of android attribute resources, parsed from public.xml with a regex
 """
 import os
@@ -190,6 +191,20 @@ def gen_hostile_tree(rng, sysattrs=None):
                 walk(c)
     walk(t)
     return t
+
+
+def vary_layout(rng, e, start_gap=False):
+    """every ResXMLTree_attrExt carries its own attributeStart / attributeSize and three attribute indices: vary them per
+    element (the tree a document denotes does not depend on them).  start_gap: also attributeStart > 20."""
+    e.attr_size = rng.choice((20, 20, 24, 28, 36))
+    n = len(e.attrs)
+    e.id_index, e.class_index, e.style_index = (rng.choice((0, 0, rng.randrange(0, n + 1))) for _ in range(3))
+    if start_gap and rng.random() < 0.5:
+        e.attr_start = rng.choice((24, 28, 40))
+    for c in e.children:
+        if isinstance(c, Element):
+            vary_layout(rng, c, start_gap)
+    return e
 
 
 # ------------------------------------------------------------------ independent expectation
